@@ -50,8 +50,9 @@ std::vector<std::shared_ptr<Packet>> Decoder::decode(const void* data, const std
         {
             if (isFirstSegment(packetPtr, curSize))
             {
+                const auto segmentSize = sizeof(MessageHeader) + reinterpret_cast<const MessageHeader*>(packetPtr)->getPayloadLength();
                 SegmentedPacket segmentedPacket(
-                    packetPtr, curSize, header->getVersion(), header->getMessageType(), header->getSequenceCounter());
+                    packetPtr, segmentSize, header->getVersion(), header->getMessageType(), header->getSequenceCounter());
                 segmentedPackets[{deviceId, streamId}] = std::move(segmentedPacket);
             }
             else
